@@ -291,6 +291,10 @@ main(void)
 			snprintf(pfx, sizeof(pfx), "noaio");
 		} else if (strcmp(op, "tmo") == 0) {
 			nng_aio_set_timeout(aios[k], (nng_duration) atoi(tok[2]));
+		} else if ((strcmp(op, "expire") == 0 || strcmp(op, "expnever") == 0) && (n_sub[k] != n_cb[k])) {
+			// the user's contract: an absolute expiry is set between operations (nni_aio_set_expire writes
+			// a_expire, which is also the deadline of an operation in flight, without any lock)
+			snprintf(pfx, sizeof(pfx), "busy");
 		} else if (strcmp(op, "expire") == 0) {
 			// an absolute expiry, given relative to the clock of this instant (the clock runs on real time)
 			nng_aio_set_expire(aios[k], (nng_time) ((int64_t) nng_clock() + atoll(tok[2])));
